@@ -5,8 +5,11 @@ go 1.13
 require (
 	github.com/DOSNetwork/core v0.0.0
 	github.com/dedis/kyber v0.0.0-20181211160045-59837fd0c24b
+	github.com/dedis/protobuf v1.0.3
 	github.com/ethereum/go-ethereum v1.10.9
 	github.com/golang/protobuf v1.4.3
+	github.com/hashicorp/serf v0.8.3
+	golang.org/x/crypto v0.0.0-20210322153248-0c34fe9e7dc2
 )
 
 replace github.com/DOSNetwork/core => /repo
